@@ -285,9 +285,20 @@ func (ot *objectTree) AddContentWithValidator(ctx context.Context, content Signa
 		OrderId:         objChange.OrderId,
 		ChangeSize:      len(rawChange.RawChange),
 	}
+	// if the change is not going to be stored, the live tree must be brought back to what storage holds
+	rollback := func() {
+		_, rebuildErr := ot.rebuildFromStorage(nil, nil, nil)
+		if rebuildErr != nil {
+			log.Error("failed to rebuild after failed add content", zap.String("treeId", ot.id), zap.Error(rebuildErr))
+		}
+	}
 	if validator != nil {
 		err = validator(storageChange)
 		if err != nil {
+			if content.IsSnapshot {
+				// the tree was already cleared for the new snapshot
+				rollback()
+			}
 			return
 		}
 	}
@@ -298,6 +309,7 @@ func (ot *objectTree) AddContentWithValidator(ctx context.Context, content Signa
 	added := []StorageChange{storageChange}
 	err = ot.storage.AddAll(ctx, added, ot.Heads(), ot.tree.root.Id)
 	if err != nil {
+		rollback()
 		return
 	}
 
